@@ -158,6 +158,11 @@ fn source_strategy(tier: Tier) -> BoxedStrategy<String> {
         "{% include 'missing.txt' %}",
         "{{ nosuch|nosuchfilter }}",
         "{% raw %}{{ raw }}{% endraw %}",
+        // other escape modes: JSON auto-escaping has formatting paths of its own
+        "{% autoescape 'json' %}{{ i }}{{ 7 }}{{ 255 }}{{ 256 }}{{ s }}{{ m }}{{ l }}{% endautoescape %}",
+        "{% autoescape 'json' %}{% for q in l %}{{ loop.index }}{{ q }}{% endfor %}{{ ls|length }}{{ f }}{{ b }}{{ n }}{% endautoescape %}",
+        "{% autoescape 'none' %}{{ '<&>' }}{{ 0 }}{% endautoescape %}",
+        "{{ 0 }}{{ 9 }}{{ 10 }}{{ 255 }}{{ 256 }}{{ -1 }}{{ l|length }}",
     ]);
     let structured = (prop::collection::vec(pieces, 1..7), any::<bool>(), any::<bool>()).prop_map(|(p, inherit, sup)| {
         let body = p.concat();
@@ -183,13 +188,13 @@ impl Part for Sinks {
     fn strategy(tier: Tier) -> BoxedStrategy<SinkCase> {
         (
             source_strategy(tier),
-            any::<bool>(),
+            0u8..6,
             0u8..6,
             prop_oneof![3 => Just(None), 1 => (1u8..9).prop_map(Some)],
             prop_oneof![Just(None), Just(Some("a".to_string()))],
         )
             .prop_map(|(source, html, kind, max_chunk, block)| SinkCase {
-                main_name: if html { "main.html".into() } else { "main.txt".into() },
+                main_name: ["main.txt", "main.html", "main.txt", "main.html", "main.json", "main.yaml"][html as usize % 6].into(),
                 source,
                 companions: vec![
                     ("a.txt".into(), "<a:{{ i }}{% for q in l %}{{ q }}{% endfor %}>".into()),
@@ -380,7 +385,7 @@ crate::declare_parts!(Sinks);
 
 pub fn run(ctx: &mut Ctx) {
     ctx.level = "fault_enumeration";
-    ctx.rule = "programs built from text, integer/float/small-string fast paths, escaping, macros, call blocks, includes, set-blocks, filter blocks, recursive loops, self.block(), inheritance with super(), programs failing on their own (plus tame and free-mode programs); R = payload sequence received by a sink that never fails; then the sink is made to fail at the k-th write call for EVERY k in 0..=len(R) (renders with more than 96 writes: the first 64, the last 16 and 48 evenly spaced positions) with one of BrokenPipe / Other / WouldBlock / a custom error type / Ok(0) / Interrupted-once, plus short writes of 1..8 bytes; render_captured_to and State::render_block_to_write. Oracle: bytes received == first k payloads of R, no write call after the error, Err(WriteFailure) whose source downcasts to the sink's own io::Error (WriteZero for Ok(0)), never Ok and never a panic; Interrupted and short writes change nothing. Non-trivial: at least 4 writes and a nested evaluation (macro/include/block/capture). Distinct by case; each case enumerates all its failure points.".into();
+    ctx.rule = "programs named .txt, .html, .json or .yaml (no, HTML and JSON auto-escaping, also switched inside autoescape blocks) built from text, integer/float/small-string fast paths, escaping, macros, call blocks, includes, set-blocks, filter blocks, recursive loops, self.block(), inheritance with super(), programs failing on their own (plus tame and free-mode programs); R = payload sequence received by a sink that never fails; then the sink is made to fail at the k-th write call for EVERY k in 0..=len(R) (renders with more than 96 writes: the first 64, the last 16 and 48 evenly spaced positions) with one of BrokenPipe / Other / WouldBlock / a custom error type / Ok(0) / Interrupted-once, plus short writes of 1..8 bytes; render_captured_to and State::render_block_to_write. Oracle: bytes received == first k payloads of R, no write call after the error, Err(WriteFailure) whose source downcasts to the sink's own io::Error (WriteZero for Ok(0)), never Ok and never a panic; Interrupted and short writes change nothing. Non-trivial: at least 4 writes and a nested evaluation (macro/include/block/capture). Distinct by case; each case enumerates all its failure points.".into();
     ctx.assumptions = vec!["the write sequence of a render is deterministic (checked: the good sink is compared with render())".into()];
     preamble(ctx);
     let t = ctx.tier;
